@@ -116,6 +116,13 @@ def run_case(case):
             for p in case["order"]:
                 slot = case["smap"][p]
                 key = tuple(p.split("/")) if p else ()
+                if case.get("helpers", True):
+                    # the public registration helpers (they start from what the prefix resolves to at that moment)
+                    if slot["cache"] != "-":
+                        idx.storage_map.add_cache(ObjectStorage(key, cachemap[slot["cache"]]))
+                    if slot["remote"] != "-":
+                        idx.storage_map.add_remote(ObjectStorage(key, remotes[slot["remote"]]))
+                    continue
                 info = idx.storage_map._map.setdefault(key, __import__("dvc_data.index.index", fromlist=["StorageInfo"]).StorageInfo())
                 if slot["cache"] != "-":
                     info.cache = ObjectStorage(key, cachemap[slot["cache"]])
@@ -240,7 +247,7 @@ def check(run: core.Run, replay=None):
         for i, c in enumerate(cfgs):
             smap = {p: s for p, s in (c["smap"].items() if isinstance(c["smap"], dict) else [])}
             F = [] if i % 3 == 0 else [objs[i % len(objs)]]
-            cases.append({"id": i, "smap": smap, "order": list(c["order"]), "F": F})
+            cases.append({"id": i, "smap": smap, "order": list(c["order"]), "F": F, "helpers": i % 3 != 2})
     with get_context("fork").Pool(16) as pool:
         recs = [r for part in pool.map(_work, [cases[k::48] for k in range(48) if cases[k::48]]) for r in part]
     errs = [r for r in recs if "harness_error" in r]
